@@ -379,17 +379,34 @@ static long sto_frames_of_start(int dev, uint32_t start_no, struct rtm_frame** f
         if (M->sto[dev].log[i].start_no == start_no) { if (!n) *first = &M->sto[dev].log[i]; ++n; }
     return n;
 }
-static void reset_logs(void)
+// `all`: also forget what the cameras delivered (start of a case).  Between the acquisitions of a case the
+// camera logs are kept so that a stale frame can be recognised by its pixels (they encode device, epoch, id).
+static void reset_logs_(int all)
 {
     pthread_mutex_lock(&M->mu);
     for (int d = 0; d < RTM_NDEV; ++d) {
-        for (size_t i = 0; i < M->cam[d].nlog; ++i) free(M->cam[d].log[i].pixels);
         for (size_t i = 0; i < M->sto[d].nlog; ++i) free(M->sto[d].log[i].pixels);
-        M->cam[d].nlog = 0; M->sto[d].nlog = 0;
+        M->sto[d].nlog = 0;
+        if (all) { for (size_t i = 0; i < M->cam[d].nlog; ++i) free(M->cam[d].log[i].pixels); M->cam[d].nlog = 0; }
     }
     pthread_mutex_unlock(&M->mu);
     for (size_t i = 0; i < g_ncl; ++i) free(g_cl[i].pixels);
     g_ncl = 0;
+}
+static void reset_logs(void) { reset_logs_(0); }
+// epoch of the camera frame with these pixels (0 = none of this case's frames)
+// (tiny frames collide: a frame that the epoch `prefer` also produced counts as that epoch's)
+static uint64_t epoch_of_pixels(int dev, uint64_t pixhash, uint64_t hw_id, uint64_t prefer)
+{
+    uint64_t ep = 0;
+    pthread_mutex_lock(&M->mu);
+    for (size_t i = 0; i < M->cam[dev].nlog; ++i)
+        if (M->cam[dev].log[i].pixhash == pixhash && M->cam[dev].log[i].hw_id == hw_id) {
+            ep = M->cam[dev].log[i].epoch_hint;
+            if (ep == prefer) break;
+        }
+    pthread_mutex_unlock(&M->mu);
+    return ep;
 }
 
 // expected mean of window [j*k, j*k+k) of epoch `ep` at pixel i, as a double
@@ -413,11 +430,12 @@ struct acq_result { uint64_t cam_epoch[2]; uint32_t sto_start[2]; int started; i
 
 // Compare what storage `dev` got during start `start_no` with what camera `dev` delivered in `epoch`.
 // prefix_ok: an aborted/faulted acquisition only has to be a gap-free prefix.
-static int g_prev_aborted; // the previous acquisition on this runtime ended by abort or fault
+static int g_prev_aborted; // the previous acquisition on this runtime ended by abort
+static int g_prev_faulted; // ... or had a device fault (C09: "a later fault-free acquisition is complete and correct")
 static int g_client_active; // a monitoring client polled during the acquisition being judged
 static const char* mk_props(char* buf, size_t n, const char* base, int shape_differs)
 {
-    snprintf(buf, n, "%s%s%s%s", base, g_prev_aborted ? ",C07" : "", g_client_active ? ",C06" : "", shape_differs ? ",C05" : "");
+    snprintf(buf, n, "%s%s%s%s%s", base, g_prev_aborted ? ",C07" : "", g_prev_faulted ? ",C09" : "", g_client_active ? ",C06" : "", shape_differs ? ",C05" : "");
     return buf;
 }
 static void check_stream(int dev, const struct stream_cfg* s, const struct acq_result* r, int prefix_ok, const char* ctx)
@@ -484,11 +502,14 @@ static void check_stream(int dev, const struct stream_cfg* s, const struct acq_r
             struct rtm_frame *a = &cf[i], *b = &sf[i];
             if (b->frame_id != (uint64_t)i || b->hw_id != a->hw_id || b->w != a->w || b->h != a->h || b->type != a->type || b->pixhash != a->pixhash) {
                 // classify: stale frame of an earlier acquisition?
-                int stale = (b->ts_hw >> 32) != r->cam_epoch[dev];
+                uint64_t bep = 0; // epoch of the camera frame whose pixels storage got (lock is held: scan directly)
+                for (size_t q = 0; q < M->cam[dev].nlog; ++q)
+                    if (M->cam[dev].log[q].pixhash == b->pixhash && M->cam[dev].log[q].hw_id == b->hw_id) { bep = M->cam[dev].log[q].epoch_hint; if (bep == r->cam_epoch[dev]) break; }
+                int stale = bep != 0 && bep != r->cam_epoch[dev];
                 int shp = b->w != a->w || b->h != a->h || b->type != a->type;
                 violation(prefix_ok ? (shp ? "C07,C09,C05" : "C07,C09") : mk_props(pb, sizeof pb, "C04,C09", shp), stale ? "stale-frame-in-storage" : "frame-mismatch",
                           "%s stream %d: storage frame %ld has id %llu hw %llu %ux%u (epoch %llu), camera frame %ld is hw %llu %ux%u (epoch %llu)%s", ctx, dev, i,
-                          (unsigned long long)b->frame_id, (unsigned long long)b->hw_id, b->w, b->h, (unsigned long long)(b->ts_hw >> 32), i,
+                          (unsigned long long)b->frame_id, (unsigned long long)b->hw_id, b->w, b->h, (unsigned long long)bep, i,
                           (unsigned long long)a->hw_id, a->w, a->h, (unsigned long long)r->cam_epoch[dev], b->pixhash != a->pixhash ? " pixels differ" : "");
                 break;
             }
@@ -509,7 +530,22 @@ static void check_client(int dev, const struct stream_cfg* s, const struct acq_r
             violation("C05", "client-frame-structure", "%s stream %d: client frame %zu structural error %d", ctx, dev, i, f->structural_error);
             return;
         }
-        uint64_t ep = f->ts_hw >> 32;
+        // which acquisition does this frame belong to?  raw frames: ask the pixels (they encode device, epoch and
+        // hardware id); averaged frames: only the copied hardware timestamp can tell
+        uint64_t ts_ep = f->ts_hw >> 32;
+        uint64_t ep = s->avg > 1 ? ((ts_ep != 0 && ts_ep < r->cam_epoch[dev]) ? ts_ep : r->cam_epoch[dev])
+                                 : epoch_of_pixels(dev, f->pixhash, f->hw_id, r->cam_epoch[dev]);
+        if (ep == 0 && ts_ep != 0 && ts_ep < r->cam_epoch[dev]) ep = ts_ep; // e.g. an averaged frame of an earlier acquisition
+        // the sample type tells leftovers apart as well: averaged frames are f32, raw frames of these cameras are not
+        uint64_t earlier = r->cam_epoch[dev] > 1 ? r->cam_epoch[dev] - 1 : r->cam_epoch[dev] + 1000;
+        if (s->avg > 1 && f->type != SampleType_f32) ep = earlier;
+        if (s->avg <= 1 && ep == 0 && f->type == SampleType_f32 && s->type != SampleType_f32) ep = earlier;
+        if (ep == 0 && first && g_cl_first_map_label == label) ep = r->cam_epoch[dev] - 1 ? r->cam_epoch[dev] - 1 : 1; // unknown leftovers handed to a joining client
+        if (!s->real_devices && s->avg <= 1 && ep == 0) {
+            violation("C06", "client-frame-mismatch", "%s stream %d: client frame id %llu (hw %llu) carries pixels no camera frame of this runtime had", ctx, dev,
+                      (unsigned long long)f->frame_id, (unsigned long long)f->hw_id);
+            return;
+        }
         if (!s->real_devices && ep != r->cam_epoch[dev]) {
             if (first && g_cl_first_map_label == label) {
                 // the reader registered during this acquisition and starts at the beginning of the
@@ -814,9 +850,9 @@ static void run_case(const char* mode, uint64_t seed, unsigned long icase, int v
     g_rt = acquire_init(reporter);
     if (!g_rt) { violation("C08", "init-failed", "acquire_init failed"); return; }
     g_cl_mapped = 0; g_cl_errors = 0; g_acq_label = 0; g_ev_checked = M->nevents; g_ninst = 0; g_cl_first_map_label = -1;
-    reset_logs();
+    reset_logs_(1);
     int nacq = (int)vrng_range(&g, 2, is06 ? 8 : 5);
-    g_prev_aborted = 0;
+    g_prev_aborted = 0; g_prev_faulted = 0;
     int client_from = is06 && vrng_chance(&g, 1, 3) ? (int)vrng_range(&g, 1, nacq - 1) : 0; // late join
     int client_kind = (int)vrng_range(&g, 1, CL_N - 1);
     int have_client = is06 || vrng_chance(&g, 1, 2);
@@ -900,7 +936,7 @@ static void run_case(const char* mode, uint64_t seed, unsigned long icase, int v
         vbuf_printf(&g_log, "client=%s} ", k_client[a.client]);
         struct acq_result r;
         run_acquisition(&a, &g, q, &r, 1);
-        g_prev_aborted = r.ended_by_abort || a.fault;
+        g_prev_aborted = r.ended_by_abort || a.fault; g_prev_faulted = a.fault;
         reset_logs();
     }
     ++g_api_calls;
@@ -925,7 +961,7 @@ static void run_program(uint64_t seed, unsigned long icase, int verbose, int hos
     g_rt = acquire_init(reporter);
     if (!g_rt) { violation("C08", "init-failed", "acquire_init failed"); return; }
     g_cl_mapped = 0; g_cl_errors = 0; g_acq_label = 0; g_ev_checked = M->nevents; g_ninst = 0; g_cl_first_map_label = -1;
-    reset_logs();
+    reset_logs_(1);
     int ncalls = (int)vrng_range(&g, 10, 60);
     int configured = 0, running = 0; uint64_t sig = vhash_init(); int prev = 0;
     struct acq_cfg a; memset(&a, 0, sizeof a);
